@@ -13,6 +13,7 @@ mod c09;
 mod c10;
 mod semcheck;
 mod c11;
+mod c12;
 mod c14;
 
 type ReplayFn = fn(&Ctx, &J) -> Result<(), String>;
@@ -30,6 +31,7 @@ fn table(prop: &str) -> Option<(RunFn, ReplayFn)> {
     "C09" => (c09::run, c09::replay),
     "C10" => (c10::run, c10::replay),
     "C11" => (c11::run, c11::replay),
+    "C12" => (c12::run, c12::replay),
     "C14" => (c14::run, c14::replay),
     _ => return None,
   })
